@@ -127,10 +127,9 @@ ANCHORS = {
         NML: ["*._get_cell_id", "*.get_pre_cell_id", "*.get_post_cell_id", "*.get_pre_segment_id", "*.get_post_segment_id",
               "*.get_pre_fraction_along", "*.get_post_fraction_along", "*.get_weight", "*.get_delay_in_ms",
               "*.get_target_cell_id", "*.get_target_population", "*.get_segment_id", "*.get_fraction_along",
-              "*.get_pre_info", "*.get_post_info", "NeuroMLDocument.summary", "Population.get_size",
-              "*.has_segment_fraction_info"],
+              "*.get_pre_info", "*.get_post_info", "NeuroMLDocument.summary", "Population.get_size"],
         "neuroml/hdf5/NeuroMLXMLParser.py": ["NeuroMLXMLParser._parse_delay"],
-        "neuroml/utils.py": ["print_summary"],
+        "neuroml/utils.py": ["print_summary", "get_summary", "has_segment_fraction_info"],
     },
     # C20 compares two source files; nothing of the library is executed by its tie.
 }
